@@ -20,6 +20,9 @@ type profile struct {
 	num  uint64
 	name string
 	run  func(rc *RunCtx) *Violation
+	// warm, if set, runs once per process before the first run, with the choice tape off
+	warm   func()
+	warmed bool
 }
 
 var profiles = map[string]*profile{}
@@ -74,6 +77,10 @@ func (r *raceLog) fresh() string {
 func oneRun(p *profile, agg *Agg, seed uint64, index int64, tapeIn []uint32, replay bool, wantSample bool, rl *raceLog) *Violation {
 	rc := &RunCtx{agg: agg, index: index, seed: seed, faults: map[string]int64{}, probes: map[string]int64{},
 		sample: map[string]interface{}{}, wantSamp: wantSample}
+	if p.warm != nil && !p.warmed {
+		p.warmed = true
+		p.warm()
+	}
 	if replay {
 		simrt.StartReplay(tapeIn)
 	} else {
